@@ -967,6 +967,11 @@ overload_loop:
 		}
 		clear(genericTypes)
 
+		// a declaration with the wrong number of parameters was already reported as an error
+		if len(overload.Parameters) != len(operands) {
+			continue
+		}
+
 		operator_overload := &ast.OperatorOverload{
 			Decl: overload,
 			Args: make(map[string]ast.Expression, len(overload.Parameters)),
@@ -1027,6 +1032,11 @@ func (t *Typechecker) findOverloadCast(expr *ast.CastExpr, operand operand) *ast
 			return nil
 		}
 		clear(genericTypes)
+
+		// a declaration with the wrong number of parameters was already reported as an error
+		if len(overload.Parameters) != 1 {
+			continue
+		}
 
 		operator_overload := &ast.OperatorOverload{
 			Decl: overload,
